@@ -24,6 +24,8 @@ KEEP = {"astype", "copy", "reshape", "squeeze", "transpose", "sum", "abs", "max"
         "groupby", "size", "mean", "sort_values", "reset_index", "iloc", "T", "dot"}
 ERASE_ATTR = {"values", "shape", "size", "ndim", "columns_len"}
 
+ATTR_PROV = {"raw_feature_": "U"}          # GroupFeature.raw_feature_ holds the caller's object as it was passed in
+
 SUMMARIES = {  # helper -> abstract results (tuple aware)
     "_validate_and_reformat_input": ("?", "D", "D", "D"),     # X passthrough, y Series(ndarray), sf Series(ndarray), cf Series(ndarray)
     "_reformat_and_group_data": "D",                          # DataFrame built from .values / lists (checked separately below)
@@ -70,6 +72,10 @@ class Prov(ast.NodeVisitor):
                 return base
             if self.name_of(e).startswith("self."):
                 return self.env.get(self.name_of(e), "?")
+            if e.attr in ("index", "columns"):
+                return "U" if base == "U" else "E"          # the labels of a caller object are caller labels; labels of a default-index object are positions
+            if e.attr in ATTR_PROV:
+                return ATTR_PROV[e.attr]
             return base if e.attr in KEEP else "?"
         if isinstance(e, ast.Subscript):
             base = self.ev(e.value)
@@ -80,11 +86,15 @@ class Prov(ast.NodeVisitor):
             args = [self.ev(a) for a in e.args] + [self.ev(k.value) for k in e.keywords]
             if fname in ERASERS:
                 return "E"
+            if fname == "getattr" and len(e.args) >= 2 and isinstance(e.args[1], ast.Constant) and e.args[1].value in ("index", "columns"):
+                return "U" if args and args[0] == "U" else "E"
             if fname in SUMMARIES:
                 return SUMMARIES[fname]
             if fname in MAKE_DEFAULT:
                 # a dict/list literal of E columns gives D ; a pandas argument keeps its labels
                 inner = "E"
+                if any(k.arg in ("index", "columns") and self.ev(k.value) == "U" for k in e.keywords):
+                    return "U"          # built with the caller's labels
                 for a in e.args + [k.value for k in e.keywords]:
                     if isinstance(a, ast.Dict):
                         for v in a.values:
